@@ -182,12 +182,14 @@ void take_dump(hwloc_topology_t t, Dump &d, DumpMode mode) {
     }
   }
   // memory attributes
-  unsigned nnodes = hwloc_get_nbobjs_by_type(t, HWLOC_OBJ_NUMANODE) > 0 ? (unsigned)hwloc_get_nbobjs_by_type(t, HWLOC_OBJ_NUMANODE) : 0;
   for (unsigned id = 0; id < 256; id++) {
     const char *name = nullptr; if (hwloc_memattr_get_name(t, id, &name) < 0) break;
     MemattrRec m; m.id = id; m.name = name ? name : "(null)"; hwloc_memattr_get_flags(t, id, &m.flags);
-    for (unsigned n = 0; n < nnodes; n++) {
-      hwloc_obj_t node = hwloc_get_obj_by_type(t, HWLOC_OBJ_NUMANODE, n); if (!node) continue;
+    // every target (usually NUMA nodes, but any object may be one) through get_targets with a NULL initiator
+    unsigned ntg = 0; std::vector<hwloc_obj_t> tobjs; std::vector<hwloc_uint64_t> tvals;
+    if (hwloc_memattr_get_targets(t, id, nullptr, 0, &ntg, nullptr, nullptr) == 0 && ntg) { tobjs.resize(ntg); tvals.resize(ntg); unsigned n2 = ntg; if (hwloc_memattr_get_targets(t, id, nullptr, 0, &n2, tobjs.data(), tvals.data()) < 0) ntg = 0; else if (n2 < ntg) ntg = n2; }
+    for (unsigned n = 0; n < ntg; n++) {
+      hwloc_obj_t node = tobjs[n]; if (!node) continue;
       MemTarget tg; tg.gp = node->gp_index;
       if (m.flags & HWLOC_MEMATTR_FLAG_NEED_INITIATOR) {
         unsigned ni = 0; if (hwloc_memattr_get_initiators(t, id, node, 0, &ni, nullptr, nullptr) < 0 || !ni) continue;
@@ -201,6 +203,7 @@ void take_dump(hwloc_topology_t t, Dump &d, DumpMode mode) {
       }
       m.targets.push_back(tg);
     }
+    std::sort(m.targets.begin(), m.targets.end(), [](const MemTarget &a, const MemTarget &b) { return a.gp < b.gp; });
     d.memattrs.push_back(m);
   }
   // cpukinds
